@@ -467,3 +467,36 @@ def raw_flag_identity_tests(prog: Program, ctx: str, func: FuncInfo, ps=None):
                 elif x[0] == "f" and x[1] == SELF and x[2] in raw_fields:
                     out.append((c, x, f"self.{x[2]}, which the constructor stores as passed"))
     return out
+
+
+def alias_view(p: State, mapping: dict):
+    """a read-only view of path p in which every occurrence of the expressions in `mapping` (keys compared after strip_epochs) is
+    replaced by its image: used when a local object provably stands for a field (a working copy that replaces the field at the end)"""
+    import copy as _copy
+    from types import SimpleNamespace
+    from .expr import mapx
+    from .walk import Cond, Event
+
+    def sub(v):
+        if not isinstance(v, tuple):
+            return v
+        return mapx(v, lambda n: mapping.get(strip_epochs(n)))
+
+    def subd(d):
+        out = {}
+        for k, v in d.items():
+            if isinstance(v, tuple):
+                out[k] = sub(v)
+            elif isinstance(v, list):
+                out[k] = [sub(x) if isinstance(x, tuple) else x for x in v]
+            elif isinstance(v, dict):
+                out[k] = {kk: (sub(x) if isinstance(x, tuple) else x) for kk, x in v.items()}
+            else:
+                out[k] = v
+        return out
+    events = [Event(e.kind, e.node, e.func, e.loops, e.ncond, e.depth, subd(e.d)) for e in p.events]
+    conds = [Cond(sub(c.atom), c.truth, c.node, c.func, c.loops) for c in p.conds]
+    ex = p.exit
+    if ex is not None and len(ex) > 1 and isinstance(ex[1], tuple):
+        ex = (ex[0], sub(ex[1])) + tuple(ex[2:])
+    return SimpleNamespace(events=events, conds=conds, exit=ex, fields={k: sub(v) for k, v in p.fields.items()}, notes=getattr(p, "notes", []))
